@@ -50,6 +50,8 @@ def std_models(include_quantised=True):
                  "hi": [6.0, 3.0, -10.0], "mu": [1.0, 1.5, -15.0]}),
         st.just({"name": "gauss_gauss", "dims": 2}),
         st.just({"name": "gauss_hole", "dims": 2}),
+        # likelihood that is exactly zero on part of the prior volume
+        st.just({"name": "gauss_cut", "dims": 2}),
         st.just({"name": "periodic", "dims": 2}),
         st.just({"name": "gw_named"}),
     ]
@@ -327,6 +329,11 @@ def ins_models():
         st.just({"name": "rosenbrock", "dims": 2}),
         st.just({"name": "gauss_hole", "dims": 2}),
         st.just({"name": "gauss_hole", "dims": 2, "cut": -1.0}),
+        # likelihood that is exactly zero on part of the prior volume
+        st.just({"name": "gauss_cut", "dims": 2}),
+        # prior that is not uniform on the unit hypercube (the model
+        # overrides log_prior_unit_hypercube)
+        st.just({"name": "gauss_affine", "dims": 2}),
     )
 
 
@@ -428,7 +435,22 @@ def ins_job(draw, resume_cycles=(0, 0), nlive=(100, 500),
 # ------------------------------------------------------------------ C15
 @st.composite
 def stop_job(draw):
-    """Small runs that exercise the stopping rules of both samplers."""
+    """Small runs that exercise the stopping rules of both samplers; a
+    quarter of them with a process kill between the last checkpoint of the
+    sampling loop and the checkpoint of the finalised run."""
+    case = draw(_stop_job())
+    if draw(st.sampled_from([False, False, False, True])):
+        case["kill_at_finalise"] = True
+        case["labels"].append("history:kill-at-finalise")
+        # a checkpoint at every iteration boundary, so that the one of the
+        # stopping iteration exists
+        case["kwargs"]["checkpoint_on_iteration"] = True
+        case["kwargs"]["checkpoint_interval"] = 1
+    return case
+
+
+@st.composite
+def _stop_job(draw):
     if draw(st.booleans()):
         model = draw(st.sampled_from([
             {"name": "gauss_uniform", "dims": 2},
